@@ -537,8 +537,11 @@ func init() {
 			tw, ok1 := t.F[0].(*Term).ConstVal()
 			uw, ok2 := u.F[0].(*Term).ConstVal()
 			if ok1 && ok2 && tw == 0 && uw == 0 {
-				// whole seconds, no monotonic reading: (t-u) seconds, no saturation inside +-2^33 s
-				return Mul(Sub(t.F[1].(*Term), u.F[1].(*Term)), C64(1000000000))
+				// whole seconds, no monotonic reading: (t-u) seconds when that cannot saturate
+				d := Sub(t.F[1].(*Term), u.F[1].(*Term))
+				if lo, hi, ok := d.SRange(); ok && lo > -(1<<33) && hi < 1<<33 {
+					return Mul(d, C64(1000000000))
+				}
 			}
 			return in.callFunction(fn, args, nil)
 		},
@@ -563,12 +566,12 @@ func init() {
 func (in *Interp) timeNow() Value {
 	// time.Time{wall uint64, ext int64, loc *Location}; wall=0 means no
 	// monotonic reading and ext = seconds since year 1.
-	t := in.p.fresh("now", BV(64))
-	lo := C64(62135596800) // 1970-01-01 in internal seconds
-	hi := C64(62135596800 + (1 << 33))
-	c := BAnd(ULe(lo, t), ULt(t, hi))
+	// 1970-01-01 in internal seconds + an arbitrary 33-bit offset (the range is
+	// structural so that time arithmetic on it simplifies)
+	t := Add(ZExt(in.p.fresh("now", BV(33)), 64), C64(62135596800))
+	c := TTrue
 	if in.lastNow != nil {
-		c = BAnd(c, ULe(in.lastNow, t))
+		c = ULe(in.lastNow, t)
 	}
 	in.p.nondets = append(in.p.nondets, &Nondet{Tag: "time.Now", Kind: "u64", t: t})
 	if !in.p.Assume(c) {
